@@ -44,12 +44,15 @@ RULE = ("target ADMGs with 2-5 nodes x 1-2 domains (selection diagram = the targ
         "plus a malformed stream for every class of the validators. A case is non-trivial when validation passes, the graph "
         "has >=3 nodes and some event variable has a subscript.")
 ASSUMPTIONS = [
-    "ctfTRu_sound / ctfTR_sound (value clause) are OPEN: Props/C09 proves the composition skeleton only; the clause rests on "
-    "the correspondence + exact functional-SCM oracle, and on the known findings listed in known_findings.jsonl",
-    "the models of SIMPLIFY, the ctf-factor factorisation and IDENTIFY are the `ctf` / `tian` families' (C19, C17); Algorithm 2/3 "
-    "are modelled parametric in them",
-    "ctf_trichotomy is proved for the validators and the composition (no exception is introduced by Algorithms 2-4 themselves "
-    "given parts that do not raise); that the parts do not raise after validation is checked by the correspondence",
+    "ctfTRu_sound / ctfTR_sound (value clause) are OPEN and false of the current code on the open findings' inputs: "
+    "Props/C09 proves the composition skeleton only; the clause rests on the correspondence + exact functional-SCM oracle",
+    "the models of SIMPLIFY, counterfactual ancestors, ctf-factors and IDENTIFY are the `ctf` / `tian` families' (C19, C17); "
+    "Algorithm 3's derivation of D* and its line 4 are parameters of the model (only its validator and its call of "
+    "Algorithm 2 are modelled); the conditional procedure is covered by the oracle on the real code",
+    "ctf_no_internal_error is OPEN and false of the current code (three crash findings); the trichotomy theorems say that an "
+    "accepted input ends in answer / FAIL / non-validation error, the oracle reports every such error",
+    "failures on inputs with the syntactic signature of an open finding are attributed to that finding by class key; a "
+    "different defect that only shows on such inputs would be masked",
     "oracle model class: discrete variables, positive rational parameters, independent root latents per bidirected edge, one "
     "private uniform noise per variable; policies are fresh kernels at the policy variables (same parents, or none when cut)",
     "a returned event that gives one variable two values (or uses a variable both as subscript value and as event value with "
@@ -191,8 +194,20 @@ def _rand_malformed(rng):
     return c
 
 
+def _corpus_dir():
+    import glob
+    import os
+    out = []
+    for f in sorted(glob.glob(os.path.join(str(C.VERIF), "corpus", PROP, "*.json"))):
+        d = json.load(open(f))
+        out += d if isinstance(d, list) else [d]
+    return out
+
+
 def cases(rng: random.Random, tier: str):
     out = [json.loads(json.dumps(c)) for c in CORPUS]
+    seen = {json.dumps(c, sort_keys=True) for c in out}
+    out += [c for c in _corpus_dir() if json.dumps(c, sort_keys=True) not in seen]
     n_rand, n_mal = {"quick": (9000, 1000), "escalated": (22000, 2500)}.get(tier, (90000, 8000))
     for _ in range(n_rand):
         out.append(_rand_case(rng, 5 if rng.random() < 0.3 else 4))
@@ -671,19 +686,31 @@ def finding_key(case, res):
 
 
 MANIFEST = {
-    "text": ("Partial. Lean theorems about the model Y0.Model.CtfTr (validators of ctfTRu / ctfTR as decision functions, "
-             "Algorithm 4's domain choice, Algorithms 2 and 3 as compositions parametric in SIMPLIFY / ctf-factorisation / "
-             "IDENTIFY): the validators accept exactly the inputs described by `ValidU` / `ValidC` and otherwise raise one "
-             "of the three documented classes; trichotomy of the composition (answer / FAIL / validation error) given "
-             "parts that do not raise; Zero is returned exactly when SIMPLIFY reports an inconsistent event. The value "
-             "clause (the expression equals the target counterfactual probability in every compatible family) and the "
-             "absence of exceptions in the parts are NOT proved: they are decided on every run by the correspondence and by "
-             "the exact functional-SCM oracle (noise-space enumeration, policies as fresh mechanisms), with the open "
-             "findings of known_findings.jsonl."),
-    "note": ("Trusted: Lean kernel; axioms propext/Classical.choice/Quot.sound; the hand-written model of the validators and "
-             "of the composition, tied to api.py by sampling; the oracle's model class (positive discrete functional SCMs, "
-             "one latent per bidirected edge, policies as fresh kernels). SIMPLIFY, factorisation and IDENTIFY are the "
-             "subject of C19 / C17."),
-    "technique": ("Lean 4 theorems on validator decision functions and on the algorithm skeleton + differential "
-                  "correspondence of the validators + exact functional-SCM oracle (trichotomy, zero-soundness, value)"),
+    "text": ("Partial. Lean theorems about the model Y0.Model.CtfTr of api.py (validators of ctfTRu / ctfTR as decision "
+             "functions, Algorithm 4, Algorithm 2 composed from the `ctf` family's models of SIMPLIFY / counterfactual "
+             "ancestors / ctf-factors and the `tian` family's model of IDENTIFY; Algorithm 3 with its bookkeeping steps as "
+             "parameters), 20 theorems in Props/C09: the validators reject with the documented classes only and an accepted "
+             "input has the stated shape (validateU_error_class, validateC_error_class, validateU_accepts, validateC_strict); "
+             "an 'invalid input' outcome is exactly a rejection by the procedure's own validator and an accepted input is "
+             "answered, refused, or ends in a non-validation error (ctfTRu_invalid_iff, ctfTRu_trichotomy, "
+             "ctfTR_trichotomy); Zero() is returned exactly when SIMPLIFY finds the event inconsistent, and then - for events "
+             "without a self-intervened variable - the event has probability 0 in every compatible functional SCM "
+             "(ctfTRu_zero_only_from_simplify, ctfTRu_zero_of_simplify, ctf_zero_sound_partial via C19); the returned event is "
+             "SIMPLIFY's output and every ctf-factor is transported from a domain with no policy variable and no selection "
+             "node on its district (ctfTRu_event_is_simplified, sigmaTR_uses_usable_domain, transportFactors_all). NOT "
+             "proved, and FALSE of the current code on the inputs of the 14 open findings (known_findings.jsonl, class keys "
+             "with minimal witnesses): the value clause (ctfTRu_sound / ctfTR_sound) and the absence of non-validation errors "
+             "(ctf_no_internal_error). These clauses are decided on every run by the correspondence (validators exact; "
+             "Algorithm 2: verdict, simplified event and exact value of the expression) and by the exact functional-SCM "
+             "oracle (noise-space enumeration of P*(event), policies as fresh mechanisms): trichotomy, zero-soundness and "
+             "value on every answered case."),
+    "note": ("Trusted: Lean kernel; axioms propext/Classical.choice/Quot.sound; the hand-written models (this family's CtfTr, "
+             "the ctf family's Ctf*, the tian family's Tian) tied to api.py by sampling; the oracle's model class (positive "
+             "discrete functional SCMs, one latent per bidirected edge, policies as fresh kernels at the policy variables, "
+             "cut from their parents or not). Failures on inputs with the syntactic signature of an open finding "
+             "(self-intervened variable, a variable with two values or in two worlds, a literal subscript that is an ancestor "
+             "of another event variable, outcome that is also a condition) are attributed to that finding; any other "
+             "failing input is reported as a violation with its exact replay."),
+    "technique": ("Lean 4 theorems on validator decision functions and on the algorithm skeleton (composition with C19 and C17 "
+                  "models) + differential correspondence + exact functional-SCM oracle (trichotomy, zero-soundness, value)"),
 }
